@@ -77,6 +77,12 @@ impl std::io::Write for Broken {
 }
 
 pub fn gen(r: &mut Rng) -> Value {
+    if r.chance(1, 30) {
+        // the library's own exit command: a value that is an integer ends the run there (failing exactly when it is not
+        // zero); any other text is an error of that line and the run goes on
+        let vals = ["0", "1", "3", "-1", "255", "256", "512", "-256", "65536", " 3", "3 ", " 0", "\t7", "abc", "", "+3", "3.0", "0x3", "99999999999"];
+        return json!({"sdk_exit": r.pick(&vals), "then": r.pick(&["0", "7"])});
+    }
     if r.chance(1, 40) {
         // C13: a script that would loop for ever, the embedder raises the flag from a second thread at some instant
         return json!({"spin": true, "delay_us": r.below(3000), "shape": r.below(8)});
@@ -170,7 +176,38 @@ fn run_spin(input: &Value) -> Option<Value> {
     }
 }
 
+fn run_sdk_exit(input: &Value) -> Option<Value> {
+    let v = input["sdk_exit"].as_str()?;
+    let then = input["then"].as_str()?;
+    let mut context = Context::new();
+    duckscriptsdk::load(&mut context.commands).ok()?;
+    let script = format!("a = set 1\nexit \"{}\"\nb = set 2\nexit {}\n", v.replace('\t', "\\t"), then);
+    // (strict integer text: no white space around it)
+    let code: Option<i32> = v.parse::<i32>().ok();
+    let (want_ok, want_b) = match code {
+        Some(c) => (c == 0, false),
+        None => (then == "0", true),
+    };
+    let r = runner::run_script(&script, context, None);
+    let (ok, b) = match &r {
+        Ok(c) => (true, c.variables.contains_key("b")),
+        Err(_) => (false, want_b), // (the variables of a failed run are not returned)
+    };
+    let line_ok = match (&r, code) {
+        (Err(e), Some(_)) => e.to_string().contains("Line: 2"),
+        (Err(e), None) => e.to_string().contains("Line: 4"),
+        _ => true,
+    };
+    if ok != want_ok || b != want_b || !line_ok {
+        return Some(json!({"script": script, "what": "exit with an integer ends the run at that line (failing exactly when the integer is not zero); any other text is an error of the line and the run goes on", "expected_success": want_ok, "got_success": ok, "error": r.err().map(|e| e.to_string())}));
+    }
+    None
+}
+
 pub fn run(input: &Value) -> Option<Value> {
+    if input["sdk_exit"].is_string() {
+        return run_sdk_exit(input);
+    }
     if input["spin"].as_bool().unwrap_or(false) {
         return run_spin(input);
     }
